@@ -188,16 +188,46 @@ func checkC33(r *Run) {
 		r.Check("C33-R1", "processing stops at the first block that fails to execute", r.P.Pos(cs.Pos()), ok, "the failing edge of executeSignedBlock must leave the loop (no later block may be applied over a gap)")
 	}
 	// R2: after progress a GetBlocks request is broadcast
-	bsites := r.CallSites(fn, "iface:daemon.daemoner.broadcastMessage")
+	type bsite struct {
+		cs ssa.CallInstruction
+		t  string
+		fs []string
+	}
+	var bsites []bsite
+	for _, cs := range r.CallSites(fn, "iface:daemon.daemoner.broadcastMessage") {
+		var fs []string
+		for _, a := range ff.MustAt(cs) {
+			fs = append(fs, a.S)
+		}
+		bsites = append(bsites, bsite{cs, r.argTerm(cs, 0), fs})
+	}
+	// the announce/request tail may live in a single-use helper: its sites count with the caller's facts
+	for _, b := range fn.Blocks {
+		for _, in := range b.Instrs {
+			ci, ok := in.(ssa.CallInstruction)
+			if !ok {
+				continue
+			}
+			h := ci.Common().StaticCallee()
+			if h == nil || !r.P.singleUse(h) {
+				continue
+			}
+			var args []string
+			for _, a := range ci.Common().Args {
+				args = append(args, ff.Term(a))
+			}
+			for _, hs := range r.CallSites(h, "iface:daemon.daemoner.broadcastMessage") {
+				_, fs := r.P.attribute(h, hs.Block())
+				bsites = append(bsites, bsite{hs, substParams(r.argTerm(hs, 0), args), fs})
+			}
+		}
+	}
 	found := false
-	for _, cs := range bsites {
-		t := r.argTerm(cs, 0)
+	for _, bs := range bsites {
+		cs, t := bs.cs, bs.t
 		if strings.HasPrefix(t, "daemon.NewGetBlocksMessage(") {
 			found = true
-			var fs []string
-			for _, a := range ff.MustAt(cs) {
-				fs = append(fs, a.S)
-			}
+			fs := bs.fs
 			_, m := matchAny([]string{"i != 0", "0 < *", "* != 0"}, fs)
 			r.Check("C33-R2", "after progress, the next blocks above the new head are requested", r.P.Pos(cs.Pos()), m, "GetBlocks broadcast: "+trunc(t, 120))
 			r.Check("C33-R2", "the request starts at the head sequence re-read after executing the blocks (second headBkSeq call)", r.P.Pos(cs.Pos()), strings.HasPrefix(t, "daemon.NewGetBlocksMessage(iface:daemon.daemoner.headBkSeq@2($1)#0"), t)
